@@ -176,3 +176,16 @@ func Asn1Marshal(val interface{}) ([]byte, error) {
 	e := vStructField(val, 1).(int)
 	return DerRSAPublicKey(bigMag[n], e), nil
 }
+
+// x509.MarshalPKIXPublicKey for an RSA key (rsaEncryption SubjectPublicKeyInfo), by template.
+func X509MarshalPKIXPublicKey(pub interface{}) ([]byte, error) {
+	k := pub.(*rsa.PublicKey)
+	inner := DerRSAPublicKey(bigMag[k.N], k.E)
+	bits := append([]byte{0x03}, derLen(len(inner)+1)...)
+	bits = append(bits, 0x00)
+	bits = append(bits, inner...)
+	alg := []byte{0x30, 0x0d, 0x06, 0x09, 0x2a, 0x86, 0x48, 0x86, 0xf7, 0x0d, 0x01, 0x01, 0x01, 0x05, 0x00}
+	body := append(alg, bits...)
+	out := append([]byte{0x30}, derLen(len(body))...)
+	return append(out, body...), nil
+}
